@@ -873,6 +873,8 @@ def check(F, run, tier):
         gib = [nd for nd in ex.nodes if nd["k"] in CALLS and nd.get("fname") == "GetInternalBuffer" and nd.get("args")
                and nd["id"] in ex.subtree(loops[0]["body"])]
         cond = ex.term(loops[0]["cond"])
+        if cond[0] == "op" and cond[1] in ("!=", ">") and cond[3] == ("const", 0):
+            cond = cond[2]          # `while (n != 0)` is `while (n)`
         good = len(gib) == 1 and ex.term(gib[0]["args"][0]) == ("un", "&", cond) and cond[0] == "var"
     inst = "OP2Utility::Archive::VolFile::ExtractFileLzh#drain-loop"
     if good and o and all(x.status == "discharged" for x in o):
